@@ -24,6 +24,7 @@ RULE = ('schedlab.gen_project (5-40 routines over modules/files; features by fla
         'spelled in random letter case. Non-trivial = expected graph has >= 4 nodes and >= 3 edges and both parse '
         'modes were compared; distinct = hash of (sources, config, seeds).')
 CASES = {'quick': 320, 'thorough': 5000}
+THOROUGH_VALIDATED = True   # full thorough tier ran to completion with exit 0 on the unchanged tree
 MIN_NONTRIVIAL = {'quick': 150, 'thorough': 2500}
 ANCHORS = ['loki/batch/scheduler.py', 'loki/batch/sgraph.py', 'loki/batch/item.py', 'loki/batch/item_factory.py',
            'loki/batch/configure.py']
